@@ -430,9 +430,9 @@ def dual_modules(ctx):
     `n_clusters` differs from `len(W)`): shapes, partition and membership (oracle only)"""
     from artlib import BARTMAP, FuzzyART, DualVigilanceART
     cov = ctx.cov
-    for i in range(ctx.scale(24, 300)):
+    for i in range(ctx.scale(40, 400)):
         r = gen.rng_for(ctx.seed, "C17/dual", i)
-        nr, nc = r.choice([(24, 24), (18, 24), (24, 15), (12, 12)])
+        nr, nc = r.choice([(24, 24), (18, 24), (24, 15), (12, 12), (16, 16), (12, 12)])
         ga, gb = r.randint(2, 4), r.randint(2, 3)
         cen = [[r.random() for _ in range(gb)] for _ in range(ga)]
         X = np.array([[cen[a % ga][b % gb] + 0.08 * r.random() for b in range(nc)] for a in range(nr)])
@@ -445,8 +445,17 @@ def dual_modules(ctx):
             return DualVigilanceART(f, lb) if dual else f
         rep = {"shape": [nr, nc], "eta": eta, "dual_side": side, "rho": rho, "rho_lower_bound": lb, "X": X.tolist()}
         bm = BARTMAP(mod("a" in side), mod("b" in side), eta)
+        refit = i % 2 == 1
         try:
             with quiet():
+                if refit:
+                    # the same estimator fitted before: fit starts from scratch
+                    # (the same matrix: both modules remember their column bounds from the first call, and any other matrix
+                    # would have to match them row- and column-wise to be accepted)
+                    X0 = X.copy()
+                    bm.fit(X0)
+                    rep["earlier_fit_on"] = X0.tolist()
+                    cov.hit("dual:refit")
                 bm.fit(X)
         except Exception as e:
             cov.hit("dual:raised:" + classify(e, X, bm))
@@ -457,6 +466,11 @@ def dual_modules(ctx):
         merged = any(len(m.base_module.W) > m.n_clusters for m in (bm.module_a, bm.module_b) if hasattr(m, "base_module"))
         if sorted(set(rl.tolist())) != list(range(na)) or sorted(set(cl.tolist())) != list(range(nb)):
             cov.hit("dual:labels-not-contiguous")
+            if (rl.size and rl.max() >= int(bm.n_row_clusters)) or (cl.size and cl.max() >= int(bm.n_column_clusters)):
+                ctx.issue("violation", "BARTMAP.fit:dual:label-range",
+                          f"row labels {sorted(set(rl.tolist()))} with n_row_clusters={bm.n_row_clusters}, column labels "
+                          f"{sorted(set(cl.tolist()))} with n_column_clusters={bm.n_column_clusters}: rows / columns with such a label belong to no bicluster"
+                          + (" (second fit on the same estimator)" if refit else ""), rep)
             continue
         if (int(bm.n_row_clusters), int(bm.n_column_clusters)) != (na, nb):
             ctx.issue("violation", "BARTMAP.fit:dual:n_clusters", f"n_row/column_clusters {bm.n_row_clusters}/{bm.n_column_clusters}, labels say {na}/{nb}", rep)
